@@ -980,3 +980,970 @@ Proof.
   - right. destruct (Hreach p Rp) as [|HpN]; [contradiction|]. exists p, x'. auto.
 Qed.
 End Transfer.
+
+(* ------------------------------------------------------------------------------ *)
+(** * The part names the operations allocate *)
+
+Definition stem_ok (stem : str) : bool :=
+  match stem with c :: _ => negb (is_dot c) && forallb not_slash stem | [] => false end.
+
+Lemma render_snoc_app d f g : render (d ++ [f]) ++ g = render (d ++ [f ++ g]).
+Proof.
+  rewrite !PackUri_proofs.render_snoc. destruct d; rewrite <- app_assoc; reflexivity.
+Qed.
+
+Lemma wf_segb_stem stem rest : stem_ok stem = true -> forallb not_slash rest = true -> wf_segb (stem ++ rest) = true.
+Proof.
+  destruct stem as [|c r]; [discriminate|]. simpl. intros H Hr. apply andb_true_iff in H as [Hd Hs].
+  apply andb_true_iff in Hs as [Hc Hs]. apply negb_true_iff in Hd. unfold is_dot in Hd.
+  unfold wf_segb. change ((c :: r) ++ rest) with (c :: (r ++ rest)). cbn [forallb].
+  rewrite forallb_app, Hc, Hs, Hr. unfold s_dot, s_dotdot. cbn [str_eqb]. rewrite Hd. reflexivity.
+Qed.
+
+Lemma seg_free_wf d : wf_name d -> Opc_proofs.seg_free d.
+Proof.
+  intros H. unfold Opc_proofs.seg_free. eapply Forall_impl; [|exact H]. intros a Ha.
+  apply PackUri_proofs.wf_segb_inv in Ha as (_ & Ha & _). exact Ha.
+Qed.
+
+Lemma part_name_snoc d f : wf_name d -> d <> [] -> last d [] <> s_rels_dir -> wf_segb f = true ->
+  Opc.part_name (render (d ++ [f])).
+Proof.
+  intros Hd Hne Hl Hf. exists (d ++ [f]).
+  assert (Hwf : wf_name (d ++ [f])) by (apply Forall_app; split; auto).
+  split; auto. split; [intros E; apply app_eq_nil in E as [_ E]; discriminate|]. split; auto. split.
+  - rewrite Opc_proofs.ct_uri_render. intros E. apply Opc_proofs.render_inj in E.
+    + destruct d as [|a [|b d']]; [contradiction|discriminate|discriminate].
+    + intros E'; apply app_eq_nil in E' as [_ E']; discriminate.
+    + discriminate.
+    + apply seg_free_wf. exact Hwf.
+    + repeat constructor.
+  - intros (d' & f' & E). change [s_rels_dir; f'] with ([s_rels_dir] ++ [f']) in E. rewrite app_assoc in E.
+    apply app_inj_tail in E as [E _]. apply Hl. rewrite E. apply last_last.
+Qed.
+
+Lemma dec_not_slash n : forallb not_slash (dec_of_N n) = true.
+Proof.
+  pose proof (Ids_proofs.dec_of_N_digits n) as H. rewrite forallb_forall in *. intros c Hc.
+  apply PackUri_proofs.digit_not_slash. auto.
+Qed.
+
+(** a name made of a directory, a stem, decimal digits and a tail *)
+Lemma tmpl_name_facts d stem post k :
+  wf_name d -> d <> [] -> last d [] <> s_rels_dir -> stem_ok stem = true -> forallb not_slash post = true ->
+  Opc.part_name (Ids.tmpl_apply (render (d ++ [stem])) post k) /\
+  baseURI (Ids.tmpl_apply (render (d ++ [stem])) post k) = render d.
+Proof.
+  intros Hd Hne Hl Hs Hp. unfold Ids.tmpl_apply. rewrite render_snoc_app.
+  assert (Hf : wf_segb (stem ++ dec_of_N k ++ post) = true).
+  { apply wf_segb_stem; auto. rewrite forallb_app, dec_not_slash, Hp. reflexivity. }
+  split; [apply part_name_snoc; auto|apply PackUri_proofs.baseURI_render; auto].
+Qed.
+
+Definition seg (s : String.string) : str := asc s.
+
+Definition known_tps : list (str * str) := [tp_theme; tp_notes_slide; tp_chart; tp_xlsx; tp_docx; tp_pptx; tp_ole].
+
+Definition other_dirs : list str :=
+  [asc "/ppt/theme"; asc "/ppt/notesSlides"; asc "/ppt/charts"; asc "/ppt/embeddings"; asc "/ppt/media"].
+
+(** a name allocated from one of the templates: a part name in one of the directories above *)
+Lemma tp_case d st post k : wf_name d -> d <> [] -> last d [] <> s_rels_dir -> stem_ok st = true ->
+  forallb not_slash post = true -> In (render d) other_dirs ->
+  Opc.part_name (Ids.tmpl_apply (render (d ++ [st])) post k) /\
+  In (baseURI (Ids.tmpl_apply (render (d ++ [st])) post k)) other_dirs.
+Proof.
+  intros H1 H2 H3 H4 H5 H6. destruct (tmpl_name_facts d st post k H1 H2 H3 H4 H5) as [P B].
+  split; auto. rewrite B. exact H6.
+Qed.
+
+Ltac tp_solve d st :=
+  apply (tp_case d st);
+  [repeat constructor|discriminate|vm_compute; discriminate|reflexivity|reflexivity|vm_compute; tauto].
+
+Lemma tp_name_facts tp k : In tp known_tps ->
+  Opc.part_name (Ids.tmpl_apply (fst tp) (snd tp) k) /\ In (baseURI (Ids.tmpl_apply (fst tp) (snd tp) k)) other_dirs.
+Proof.
+  intros H. simpl in H. destruct H as [<-|[<-|[<-|[<-|[<-|[<-|[<-|[]]]]]]]].
+  - tp_solve [asc "ppt"; asc "theme"] (asc "theme").
+  - tp_solve [asc "ppt"; asc "notesSlides"] (asc "notesSlide").
+  - tp_solve [asc "ppt"; asc "charts"] (asc "chart").
+  - tp_solve [asc "ppt"; asc "embeddings"] (asc "Microsoft_Excel_Sheet").
+  - tp_solve [asc "ppt"; asc "embeddings"] (asc "Microsoft_Word_Document").
+  - tp_solve [asc "ppt"; asc "embeddings"] (asc "Microsoft_PowerPoint_Presentation").
+  - tp_solve [asc "ppt"; asc "embeddings"] (asc "oleObject").
+Qed.
+
+Lemma slide_name_facts k : Opc.part_name (Ids.slide_name k) /\ baseURI (Ids.slide_name k) = s_slides_dir.
+Proof.
+  unfold Ids.slide_name. change Ids.s_slide_pre with (render ([asc "ppt"; asc "slides"] ++ [asc "slide"])).
+  destruct (tmpl_name_facts [asc "ppt"; asc "slides"] (asc "slide") Ids.s_xml_post k) as [P B];
+    [repeat constructor|discriminate|discriminate|reflexivity|reflexivity|].
+  split; auto.
+Qed.
+
+Lemma ext_ok_spec e : ext_ok e = true -> PackUri_proofs.no_dot e = true /\ forallb not_slash e = true.
+Proof.
+  unfold ext_ok, PackUri_proofs.no_dot. intros H. split; apply forallb_forall; intros c Hc;
+    rewrite forallb_forall in H; specialize (H c Hc); apply andb_true_iff in H; tauto.
+Qed.
+
+Lemma media_dir_name stem (i : Z) e : stem_ok stem = true -> (0 < i)%Z -> ext_ok e = true ->
+  let n := (c_slash :: asc "ppt/media/") ++ stem ++ Wire.show_Z i ++ [c_dot] ++ e in
+  packuri_new n = Ok n /\ Opc.part_name n /\ baseURI n = asc "/ppt/media".
+Proof.
+  intros Hs Hi He. cbv zeta. split; [reflexivity|].
+  rewrite (Ids_proofs.show_Z_pos i Hi).
+  assert (E : (c_slash :: asc "ppt/media/") ++ stem ++ dec_of_N (Z.to_N i) ++ [c_dot] ++ e
+              = Ids.tmpl_apply (render ([asc "ppt"; asc "media"] ++ [stem])) (c_dot :: e) (Z.to_N i)).
+  { unfold Ids.tmpl_apply. rewrite PackUri_proofs.render_snoc.
+    change (render [asc "ppt"; asc "media"]) with (c_slash :: asc "ppt/media").
+    change (c_slash :: asc "ppt/media/") with ((c_slash :: asc "ppt/media") ++ [c_slash]).
+    rewrite <- !app_assoc. reflexivity. }
+  rewrite E. destruct (tmpl_name_facts [asc "ppt"; asc "media"] stem (c_dot :: e) (Z.to_N i)) as [P B];
+    [repeat constructor|discriminate|vm_compute; discriminate|exact Hs| |].
+  - cbn [forallb]. destruct (ext_ok_spec e He) as [_ H2]. rewrite H2. reflexivity.
+  - split; auto.
+Qed.
+
+(* ------------------------------------------------------------------------------ *)
+(** * Replacing one part object (not the presentation part, not a slide master) *)
+
+Definition type_filter (t : str) (rs : list relr) : list relr := filter (fun r => str_eqb (rr_type r) t) rs.
+
+Lemma part_with_reltype_filter t rs rs' : type_filter t rs' = type_filter t rs ->
+  part_with_reltype t rs' = part_with_reltype t rs.
+Proof. unfold part_with_reltype, type_filter. intros ->. reflexivity. Qed.
+
+Lemma name_of_setp s p x x' q : getp s p = Some x -> pt_name x' = pt_name x ->
+  name_of (st_parts (setp s p x')) q = name_of (st_parts s) q.
+Proof.
+  intros Hx En. unfold name_of. change (nth_error (st_parts (setp s p x')) q) with (getp (setp s p x') q).
+  change (nth_error (st_parts s) q) with (getp s q).
+  destruct (Nat.eq_dec p q) as [<-|Hne].
+  - rewrite getp_setp_same by (eapply getp_lt; eauto). rewrite Hx. exact En.
+  - rewrite getp_setp_other by auto. reflexivity.
+Qed.
+
+Section SetPart.
+Variable T : tables.
+Variable s : state.
+Variables (p : nat) (x x' : part) (N : list nat).
+Hypothesis HT : tables_ok T.
+Hypothesis HI : Inv T s.
+Hypothesis Hx : getp s p = Some x.
+Hypothesis En : pt_name x' = pt_name x.
+Hypothesis Ec : pt_ct x' = pt_ct x.
+Hypothesis Hgood : good_part (length (st_parts s)) x'.
+Hypothesis Hnp : p <> st_pres s.
+Hypothesis Hnm : pt_ct x <> ct_slide_master.
+Hypothesis Hmf : type_filter rt_slide_master (pt_rels x') = type_filter rt_slide_master (pt_rels x).
+Hypothesis HpN : ~ In p N.
+Hypothesis Hedges : forall q, In q (int_targets (pt_rels x')) ->
+  In q (int_targets (pt_rels x)) \/ reachP s q \/ In q N \/ ~ reachP s p.
+Hypothesis HNcl : forall n y q, In n N -> getp s n = Some y -> In q (int_targets (pt_rels y)) -> reachP s q \/ In q N.
+Hypothesis HNok : forall n y, In n N -> ~ reachP s n -> getp s n = Some y ->
+  new_ok T s y /\ baseURI (pt_name y) <> s_slides_dir /\ pt_name y <> n_notes_master /\ pt_name y <> n_core.
+Hypothesis HNd : forall n m y z, In n N -> In m N -> n <> m -> ~ reachP s n -> ~ reachP s m ->
+  getp s n = Some y -> getp s m = Some z -> pt_name y <> pt_name z.
+
+Let s' := setp s p x'.
+Let Hw : wfg s := inv_wfg T s HI.
+Let Hlt : p < length (st_parts s) := getp_lt s p x Hx.
+
+Lemma sp_getp q : getp s' q = if Nat.eqb p q then Some x' else getp s q.
+Proof.
+  unfold s'. destruct (Nat.eqb_spec p q) as [<-|Hne]; [apply getp_setp_same; auto|apply getp_setp_other; auto].
+Qed.
+
+Lemma sp_parts q y : getp s' q = Some y -> good_part (length (st_parts s')) y.
+Proof.
+  unfold s'. rewrite length_setp. fold s'. rewrite sp_getp. destruct (Nat.eqb p q).
+  - intros [= <-]. exact Hgood.
+  - apply (iv_parts T s HI).
+Qed.
+
+Lemma sp_wfg : wfg s'.
+Proof.
+  split.
+  - unfold s'. rewrite length_setp. apply (iv_ptgts T s HI).
+  - intros a y q Hy Hq. exact (gp_tgts _ _ (sp_parts a y Hy) q Hq).
+Qed.
+
+Lemma sp_reach q : reachP s' q -> reachP s q \/ In q N.
+Proof.
+  apply (reach_frame s s' (fun q => In q N)).
+  - intros r Hr. left. constructor. exact Hr.
+  - intros a y q0 Hy Hq Ha. rewrite sp_getp in Hy. destruct (Nat.eqb_spec p a) as [<-|Hne].
+    + injection Hy as <-. destruct Ha as [Ha|Ha]; [|contradiction].
+      destruct (Hedges q0 Hq) as [H|[H|[H|H]]]; auto; [|contradiction]. left. eapply rp1; eauto.
+    + destruct Ha as [Ha|Ha]; [left; eapply rp1; eauto|eapply HNcl; eauto].
+Qed.
+
+Lemma sp_old q y y' : reachP s q -> getp s q = Some y -> getp s' q = Some y' ->
+  pt_name y' = pt_name y /\ pt_ct y' = pt_ct y.
+Proof.
+  intros _ Hy Hy'. rewrite sp_getp in Hy'. destruct (Nat.eqb_spec p q) as [<-|Hne].
+  - injection Hy' as <-. rewrite Hx in Hy. injection Hy as <-. auto.
+  - rewrite Hy in Hy'. injection Hy' as <-. auto.
+Qed.
+
+Lemma sp_N n y' : In n N -> getp s' n = Some y' -> getp s n = Some y'.
+Proof.
+  intros Hn Hy'. rewrite sp_getp in Hy'. destruct (Nat.eqb_spec p n) as [<-|Hne]; [contradiction|exact Hy'].
+Qed.
+
+Theorem inv_setp : Inv T s'.
+Proof.
+  assert (Hnames : forall q, name_of (st_parts s') q = name_of (st_parts s) q)
+    by (intros q; apply (name_of_setp s p x x' q Hx En)).
+  assert (HNnew : forall n y', In n N -> ~ reachP s n -> getp s' n = Some y' -> new_ok T s y').
+  { intros n y' Hn Hr Hy'. apply (HNok n y' Hn Hr). apply sp_N; auto. }
+  assert (HNdist : forall n m y z, In n N -> In m N -> n <> m -> ~ reachP s n -> ~ reachP s m ->
+                     getp s' n = Some y -> getp s' m = Some z -> pt_name y <> pt_name z).
+  { intros n m y z Hn Hm Hne Rn Rm Hy Hz. apply (HNd n m y z); auto; apply sp_N; auto. }
+  constructor.
+  - exact sp_parts.
+  - unfold s'. rewrite length_setp. apply (iv_ptgts T s HI).
+  - apply (iv_pkeys T s HI).
+  - apply (iv_pnocache T s HI).
+  - apply (tr_names T s s' N HI sp_wfg sp_reach sp_old HNnew HNdist).
+  - apply (iv_main T s HI).
+  - destruct (iv_pres T s HI) as (pp & Hpp & Hc). exists pp. split; auto.
+    change (st_pres s') with (st_pres s). rewrite sp_getp.
+    destruct (Nat.eqb_spec p (st_pres s)); [contradiction|exact Hpp].
+  - apply (tr_clash T s s' N HT HI sp_wfg sp_reach sp_old HNnew).
+  - destruct (iv_slides T s HI) as (pp & tg & Hpp & HF & Hnd & Hdir & Hall & Hnm').
+    exists pp, tg. split.
+    { change (st_pres s') with (st_pres s). rewrite sp_getp.
+      destruct (Nat.eqb_spec p (st_pres s)); [contradiction|exact Hpp]. }
+    split; auto. split; auto. split; [intros q Hq; rewrite Hnames; auto|]. split.
+    + apply (tr_dir T s s' N HI sp_wfg sp_reach sp_old tg tg); auto; [apply incl_refl|].
+      intros n y' Hn Rn Hy' Hd. exfalso. destruct (HNok n y' Hn Rn (sp_N n y' Hn Hy')) as (_ & H & _). auto.
+    + intros Hs j q Hj. rewrite Hnames. apply Hnm'; auto.
+  - intros m mx rid lp lx m' Hm Hct Hrid Hlp Hlx Hm'.
+    rewrite sp_getp in Hm. destruct (Nat.eqb_spec p m) as [<-|Hne].
+    { injection Hm as <-. rewrite Ec in Hct. contradiction. }
+    rewrite sp_getp in Hlx. destruct (Nat.eqb_spec p lp) as [<-|Hne2].
+    + injection Hlx as <-. rewrite (part_with_reltype_filter _ _ _ Hmf) in Hm'.
+      eapply (iv_master T s HI); eauto.
+    + eapply (iv_master T s HI); eauto.
+  - destruct (iv_fixed T s HI) as (F1 & F2 & F3).
+    assert (Hpres : forall pp, getp s' (st_pres s') = Some pp -> getp s (st_pres s) = Some pp).
+    { intros pp. change (st_pres s') with (st_pres s). rewrite sp_getp.
+      destruct (Nat.eqb_spec p (st_pres s)); [contradiction|auto]. }
+    assert (Hin : forall nm, nm = n_notes_master \/ nm = n_core -> In nm (iter_names s') -> In nm (iter_names s)).
+    { intros nm Hnmc H. destruct (tr_name_in T s s' N HI sp_wfg sp_reach sp_old nm H) as [|(n & y' & Hn & Rn & Hy' & E)]; auto.
+      exfalso. destruct (HNok n y' Hn Rn (sp_N n y' Hn Hy')) as (_ & _ & H1 & H2). destruct Hnmc; congruence. }
+    split; [|split].
+    + intros pp Hpp H. apply F1; auto.
+    + intros H. apply F2; auto.
+    + intros pp q Hpp. apply F3; auto.
+Qed.
+End SetPart.
+
+(* ------------------------------------------------------------------------------ *)
+(** * A new part object nobody relates to yet *)
+
+Lemma reachP_lt s : wfg s -> forall p, reachP s p -> p < length (st_parts s).
+Proof. intros Hw p Hp. destruct (iter_pids_spec s Hw) as (Hiff & _ & Hlt). apply Hlt. apply Hiff. exact Hp. Qed.
+
+Lemma related_part_target rid rs q : related_part rid rs = Ok q -> In q (int_targets rs).
+Proof.
+  unfold related_part. destruct (find_rel rid rs) as [r|] eqn:E; [|discriminate].
+  destruct (rr_tgt r) eqn:Et; [|discriminate]. intros [= <-]. apply find_rel_In in E as [Hin _].
+  apply int_targets_In. eauto.
+Qed.
+
+Section Append.
+Variable T : tables.
+Variable s : state.
+Variable y : part.
+Hypothesis HT : tables_ok T.
+Hypothesis HI : Inv T s.
+Hypothesis Hgood : good_part (S (length (st_parts s))) y.
+Hypothesis Hidl : pt_idl y = [].
+
+Let s' := with_parts s (st_parts s ++ [y]).
+Let n := length (st_parts s).
+Let Hw : wfg s := inv_wfg T s HI.
+
+Lemma ap_len : length (st_parts s') = S n.
+Proof. unfold s'. cbn. rewrite app_length. simpl. unfold n. lia. Qed.
+
+Lemma ap_getp q : getp s' q = if Nat.ltb q n then getp s q else if Nat.eqb q n then Some y else None.
+Proof.
+  unfold s', n. destruct (Nat.ltb_spec q (length (st_parts s))).
+  - apply getp_app_old. auto.
+  - destruct (Nat.eqb_spec q (length (st_parts s))) as [->|Hne]; [apply getp_app_new|].
+    unfold getp. cbn. apply nth_error_None. rewrite app_length. simpl. lia.
+Qed.
+
+Lemma ap_getp_old q z : getp s q = Some z -> getp s' q = Some z.
+Proof. intros H. rewrite ap_getp. pose proof (getp_lt s q z H). destruct (Nat.ltb_spec q n); [auto|unfold n in *; lia]. Qed.
+
+Lemma ap_parts q z : getp s' q = Some z -> good_part (length (st_parts s')) z.
+Proof.
+  rewrite ap_len, ap_getp. destruct (Nat.ltb q n).
+  - intros H. eapply good_part_mono; [|apply (iv_parts T s HI q z H)]. unfold n. lia.
+  - destruct (Nat.eqb q n); [intros [= <-]; exact Hgood|discriminate].
+Qed.
+
+Lemma ap_wfg : wfg s'.
+Proof.
+  split.
+  - intros q Hq. rewrite ap_len. pose proof (iv_ptgts T s HI q Hq). unfold n. lia.
+  - intros a z q Hz Hq. exact (gp_tgts _ _ (ap_parts a z Hz) q Hq).
+Qed.
+
+Lemma ap_reach q : reachP s' q -> reachP s q \/ In q (@nil nat).
+Proof.
+  apply (reach_frame s s' (fun q => In q (@nil nat))).
+  - intros r Hr. left. constructor. exact Hr.
+  - intros a z q0 Hz Hq [Ha|[]]. left. pose proof (reachP_lt s Hw a Ha) as Hlt.
+    rewrite ap_getp in Hz. destruct (Nat.ltb_spec a n); [|unfold n in *; lia]. eapply rp1; eauto.
+Qed.
+
+Lemma ap_reach_iff q : reachP s' q <-> reachP s q.
+Proof.
+  split.
+  - intros H. destruct (ap_reach q H) as [|[]]; auto.
+  - intros H. induction H as [q Hq|a q z Ha IH Hz Hq]; [constructor; exact Hq|].
+    eapply rp1; eauto. apply ap_getp_old. exact Hz.
+Qed.
+
+Lemma ap_old q z z' : reachP s q -> getp s q = Some z -> getp s' q = Some z' ->
+  pt_name z' = pt_name z /\ pt_ct z' = pt_ct z.
+Proof. intros _ Hz Hz'. rewrite (ap_getp_old q z Hz) in Hz'. injection Hz' as <-. auto. Qed.
+
+Lemma ap_name q : q < n -> name_of (st_parts s') q = name_of (st_parts s) q.
+Proof. intros H. unfold name_of. change (nth_error (st_parts s') q) with (getp s' q). rewrite ap_getp.
+  destruct (Nat.ltb_spec q n); [reflexivity|lia]. Qed.
+
+Theorem inv_append : Inv T s'.
+Proof.
+  assert (HN0 : forall m y', In m (@nil nat) -> ~ reachP s m -> getp s' m = Some y' -> new_ok T s y') by (intros m y' []).
+  assert (HNd0 : forall a b ya yb, In a (@nil nat) -> In b (@nil nat) -> a <> b -> ~ reachP s a -> ~ reachP s b ->
+                   getp s' a = Some ya -> getp s' b = Some yb -> pt_name ya <> pt_name yb) by (intros a b ya yb []).
+  constructor.
+  - exact ap_parts.
+  - intros q Hq. rewrite ap_len. pose proof (iv_ptgts T s HI q Hq). unfold n. lia.
+  - apply (iv_pkeys T s HI).
+  - apply (iv_pnocache T s HI).
+  - apply (tr_names T s s' [] HI ap_wfg ap_reach ap_old HN0 HNd0).
+  - apply (iv_main T s HI).
+  - destruct (iv_pres T s HI) as (pp & Hpp & Hc). exists pp. split; auto. apply ap_getp_old. exact Hpp.
+  - apply (tr_clash T s s' [] HT HI ap_wfg ap_reach ap_old HN0).
+  - destruct (iv_slides T s HI) as (pp & tg & Hpp & HF & Hnd & Hdir & Hall & Hnm').
+    assert (Htg : forall q, In q tg -> q < n).
+    { intros q Hq. apply In_nth_error in Hq as (j & Hj).
+      assert (exists rid, nth_error (pt_idl pp) j = Some rid /\ related_part rid (pt_rels pp) = Ok q) as (rid & _ & Hr).
+      { clear - HF Hj. revert j Hj. induction HF; intros j Hj; [destruct j; discriminate|].
+        destruct j; simpl in *; [injection Hj as <-; eauto|eauto]. }
+      apply related_part_target in Hr. exact (gp_tgts _ _ (iv_parts T s HI _ pp Hpp) q Hr). }
+    exists pp, tg. split; [apply ap_getp_old; exact Hpp|]. split; auto. split; auto.
+    split; [intros q Hq; rewrite ap_name; auto|]. split.
+    + apply (tr_dir T s s' [] HI ap_wfg ap_reach ap_old tg tg); auto; [apply incl_refl|intros m y' []].
+    + intros Hs j q Hj. rewrite ap_name; [apply Hnm'; auto|]. apply Htg. eapply nth_error_In; eauto.
+  - intros m mx rid lp lx m' Hm Hct Hrid Hlp Hlx Hm'.
+    rewrite ap_getp in Hm. destruct (Nat.ltb_spec m n).
+    + assert (Hlp' : lp < n).
+      { apply related_part_target in Hlp. exact (gp_tgts _ _ (iv_parts T s HI m mx Hm) lp Hlp). }
+      rewrite ap_getp in Hlx. destruct (Nat.ltb_spec lp n); [|lia]. eapply (iv_master T s HI); eauto.
+    + destruct (Nat.eqb m n); [|discriminate]. injection Hm as <-. rewrite Hidl in Hrid. destruct Hrid.
+  - destruct (iv_fixed T s HI) as (F1 & F2 & F3).
+    assert (Hpres : forall pp, getp s' (st_pres s') = Some pp -> getp s (st_pres s) = Some pp).
+    { intros pp Hpp'. destruct (iv_pres T s HI) as (pp0 & Hpp0 & _).
+      change (st_pres s') with (st_pres s) in Hpp'. rewrite (ap_getp_old _ _ Hpp0) in Hpp'. congruence. }
+    assert (Hin : forall nm, In nm (iter_names s') -> In nm (iter_names s)).
+    { intros nm H. destruct (tr_name_in T s s' [] HI ap_wfg ap_reach ap_old nm H) as [|(m & y' & [] & _)]; auto. }
+    split; [|split].
+    + intros pp Hpp H. apply F1; auto.
+    + intros H. apply F2; auto.
+    + intros pp q Hpp. apply F3; auto.
+Qed.
+End Append.
+
+(* ------------------------------------------------------------------------------ *)
+(** * Local facts: relationship collections and good_part under the edits the operations make *)
+
+Lemma find_rel_app_old rid rs extra : In rid (map rr_id rs) -> find_rel rid (rs ++ extra) = find_rel rid rs.
+Proof.
+  induction rs as [|a rs IH]; simpl; [tauto|]. intros H.
+  destruct (str_eqb_spec (rr_id a) rid) as [E|E]; auto. apply IH. destruct H; [contradiction|auto].
+Qed.
+
+Lemma find_rel_app_new rid rs r : ~ In rid (map rr_id rs) -> rr_id r = rid -> find_rel rid (rs ++ [r]) = Some r.
+Proof.
+  induction rs as [|a rs IH]; simpl; intros Hn E.
+  - rewrite E, str_eqb_refl. reflexivity.
+  - destruct (str_eqb_spec (rr_id a) rid) as [E'|E']; [exfalso; apply Hn; auto|]. apply IH; auto.
+Qed.
+
+Lemma int_targets_app a b : int_targets (a ++ b) = int_targets a ++ int_targets b.
+Proof. unfold int_targets. apply flat_map_app. Qed.
+
+Lemma type_filter_app t a b : type_filter t (a ++ b) = type_filter t a ++ type_filter t b.
+Proof. unfold type_filter. apply filter_app. Qed.
+
+(** get_or_add never raises; it either finds or appends under a fresh rId *)
+Lemma get_or_add_cases t g rs :
+  (exists rid r, get_or_add t g rs = Ok (rs, rid) /\ In r rs /\ rr_id r = rid /\ rr_type r = t /\ rr_tgt r = g) \/
+  (exists rid, get_or_add t g rs = Ok (rs ++ [mkR rid t g None], rid) /\ ~ In rid (map rr_id rs) /\
+               forall r, In r rs -> rr_type r = t -> rr_tgt r <> g).
+Proof.
+  unfold get_or_add, get_matching.
+  destruct (find (fun r => str_eqb (rr_type r) t && tgt_eqb (rr_tgt r) g) rs) as [r|] eqn:E.
+  - left. apply find_some in E as [Hin Hb]. apply andb_true_iff in Hb as [H1 H2]. apply str_eqb_eq in H1.
+    exists (rr_id r), r. repeat split; auto.
+    destruct (rr_tgt r), g; simpl in H2; try discriminate.
+    + apply Nat.eqb_eq in H2. subst; auto.
+    + apply str_eqb_eq in H2. subst; auto.
+  - right. unfold add_rel. destruct (Ids_proofs.rid_fresh (map rr_id rs)) as (rid & Hr & Hf & _).
+    rewrite Hr. cbn [bind]. exists rid. repeat split; auto.
+    intros r Hin Ht Hg. pose proof (find_none _ _ E r Hin) as Hb. cbn beta in Hb.
+    rewrite Ht, Hg, str_eqb_refl in Hb. simpl in Hb.
+    destruct g; simpl in Hb; [rewrite Nat.eqb_refl in Hb|rewrite str_eqb_refl in Hb]; discriminate.
+Qed.
+
+Lemma good_add_rel n x rid t g :
+  good_part n x -> ~ In rid (map rr_id (pt_rels x)) -> (forall q, g = TInt q -> q < n) ->
+  good_part n (with_rels x (pt_rels x ++ [mkR rid t g None])).
+Proof.
+  intros [H1 H2 H3 H4 H5 H6 H7 H8 H9 H10] Hf Hq. constructor; cbn [pt_name pt_base pt_rels pt_ct pt_idl pt_refs pt_slots with_rels]; auto.
+  - intros q. rewrite int_targets_app. intros Hin. apply in_app_or in Hin as [Hin|Hin]; auto.
+    destruct g; simpl in Hin; [destruct Hin as [<-|[]]; auto|destruct Hin].
+  - rewrite map_app. simpl. apply Ids_proofs.NoDup_snoc; auto.
+  - intros r Hr. apply in_app_or in Hr as [Hr|[<-|[]]]; auto.
+  - intros kr Hkr. rewrite map_app. apply in_or_app. left. apply H6. exact Hkr.
+  - intros k r x' Hin Hk Hfr. rewrite find_rel_app_old in Hfr by (apply (H6 (k, r)); auto). eapply H7; eauto.
+  - intros r Hr. destruct (H8 r Hr) as (x' & Hx' & Ht). exists x'. split; auto.
+    rewrite find_rel_app_old; auto. apply find_rel_In in Hx' as [Hin <-]. apply in_map. auto.
+Qed.
+
+Lemma all_refs_with_refs x l : all_refs (with_refs x l) = map (fun r => (k_id, r)) (pt_idl x) ++ l ++ slot_refs (pt_slots x).
+Proof. reflexivity. Qed.
+
+(** appending references that name relationships of the right kind *)
+Lemma good_add_refs n x krs :
+  good_part n x -> pt_ct x <> ct_slide_master ->
+  (forall k r, In (k, r) krs -> exists r', find_rel r (pt_rels x) = Some r' /\ (k <> k_id -> ~ In (rr_type r') link_types)) ->
+  good_part n (with_refs x (pt_refs x ++ krs)).
+Proof.
+  intros [H1 H2 H3 H4 H5 H6 H7 H8 H9 H10] Hm Hk. constructor; cbn [pt_name pt_base pt_rels pt_ct pt_idl pt_refs pt_slots with_refs]; auto.
+  - intros kr. rewrite all_refs_with_refs. intros Hin.
+    apply in_app_or in Hin as [Hin|Hin]; [apply H6; unfold all_refs; apply in_or_app; auto|].
+    apply in_app_or in Hin as [Hin|Hin]; [|apply H6; unfold all_refs; apply in_or_app; right; apply in_or_app; auto].
+    apply in_app_or in Hin as [Hin|Hin]; [apply H6; unfold all_refs; apply in_or_app; right; apply in_or_app; auto|].
+    destruct kr as [k r]. destruct (Hk k r Hin) as (r' & Hr' & _). apply find_rel_In in Hr' as [Hi <-]. cbn [snd]. apply in_map; auto.
+  - intros k r x'. rewrite all_refs_with_refs. intros Hin Hkk Hf.
+    assert (Hold : In (k, r) (all_refs x) -> ~ In (rr_type x') link_types) by (intros Ho; eapply H7; eauto).
+    apply in_app_or in Hin as [Hin|Hin]; [apply Hold; unfold all_refs; apply in_or_app; auto|].
+    apply in_app_or in Hin as [Hin|Hin]; [|apply Hold; unfold all_refs; apply in_or_app; right; apply in_or_app; auto].
+    apply in_app_or in Hin as [Hin|Hin]; [apply Hold; unfold all_refs; apply in_or_app; right; apply in_or_app; auto|].
+    destruct (Hk k r Hin) as (r' & Hr' & Hn). rewrite Hf in Hr'. injection Hr' as <-. auto.
+  - intros Hc. contradiction.
+Qed.
+
+Lemma slot_refs_app a b : slot_refs (a ++ b) = slot_refs a ++ slot_refs b.
+Proof. unfold slot_refs. apply flat_map_app. Qed.
+
+Lemma good_add_slot n x : good_part n x -> pt_ct x <> ct_slide_master ->
+  good_part n (with_slots x (pt_slots x ++ [(None, None)])).
+Proof.
+  intros [H1 H2 H3 H4 H5 H6 H7 H8 H9 H10] Hm.
+  assert (E : slot_refs (pt_slots x ++ [(None, None)]) = slot_refs (pt_slots x)).
+  { rewrite slot_refs_app. simpl. apply app_nil_r. }
+  constructor; cbn [pt_name pt_base pt_rels pt_ct pt_idl pt_refs pt_slots with_slots]; auto.
+  - intros kr. unfold all_refs. cbn [pt_idl pt_refs pt_slots with_slots]. rewrite E. apply H6.
+  - intros k r x'. unfold all_refs. cbn [pt_idl pt_refs pt_slots with_slots]. rewrite E. apply H7.
+  - intros r. unfold slot_rids. cbn [pt_slots with_slots]. rewrite E. apply H8.
+  - intros Hc. contradiction.
+Qed.
+
+(* ------------------------------------------------------------------------------ *)
+(** * part.relate_to *)
+
+Lemma m_part_run s p x : getp s p = Some x -> m_part p s = (s, Ok x).
+Proof. intros H. unfold m_part, bindM, getS. rewrite H. reflexivity. Qed.
+
+Lemma m_setp_run s p x : m_setp p x s = (setp s p x, Ok tt).
+Proof. reflexivity. Qed.
+
+Lemma m_relate_run s src t g x rs rid : getp s src = Some x -> get_or_add t g (pt_rels x) = Ok (rs, rid) ->
+  m_relate src t g s = (setp s src (with_rels x rs), Ok rid).
+Proof.
+  intros Hx Hg. unfold m_relate, bindM. rewrite (m_part_run s src x Hx). unfold lift. rewrite Hg. reflexivity.
+Qed.
+
+Lemma with_rels_same x : with_rels x (pt_rels x) = x.
+Proof. destruct x; reflexivity. Qed.
+
+Definition rel_facts (x : part) (rs : list relr) (rid t : str) (g : tgt) : Prop :=
+  (rs = pt_rels x \/ (rs = pt_rels x ++ [mkR rid t g None] /\ ~ In rid (map rr_id (pt_rels x)))) /\
+  (exists r, find_rel rid rs = Some r /\ rr_type r = t /\ rr_tgt r = g) /\
+  (forall k, In k (map rr_id (pt_rels x)) -> find_rel k rs = find_rel k (pt_rels x)).
+
+Lemma get_or_add_facts n x t g : good_part n x ->
+  exists rs rid, get_or_add t g (pt_rels x) = Ok (rs, rid) /\ rel_facts x rs rid t g.
+Proof.
+  intros G. destruct (get_or_add_cases t g (pt_rels x)) as [(rid & r & E & Hin & Hid & Ht & Hg)|(rid & E & Hf & _)].
+  - exists (pt_rels x), rid. split; auto. split; [left; auto|]. split; auto.
+    exists r. split; auto. rewrite <- Hid. apply find_rel_NoDup; auto. apply (gp_keys _ _ G).
+  - exists (pt_rels x ++ [mkR rid t g None]), rid. split; auto. split; [right; auto|]. split.
+    + eexists. split; [apply find_rel_app_new; auto|]. auto.
+    + intros k Hk. apply find_rel_app_old. auto.
+Qed.
+
+Section Relate.
+Variable T : tables.
+Variable s : state.
+Variables (src : nat) (x : part) (t : str) (q : nat) (N : list nat).
+Hypothesis HT : tables_ok T.
+Hypothesis HI : Inv T s.
+Hypothesis Hx : getp s src = Some x.
+Hypothesis Hnp : src <> st_pres s.
+Hypothesis Hnm : pt_ct x <> ct_slide_master.
+Hypothesis Ht : t <> rt_slide_master.
+Hypothesis Hq : q < length (st_parts s).
+Hypothesis HsN : ~ In src N.
+Hypothesis Hqr : reachP s q \/ In q N \/ ~ reachP s src.
+Hypothesis HNcl : forall n y q', In n N -> getp s n = Some y -> In q' (int_targets (pt_rels y)) -> reachP s q' \/ In q' N.
+Hypothesis HNok : forall n y, In n N -> ~ reachP s n -> getp s n = Some y ->
+  new_ok T s y /\ baseURI (pt_name y) <> s_slides_dir /\ pt_name y <> n_notes_master /\ pt_name y <> n_core.
+Hypothesis HNd : forall n m y z, In n N -> In m N -> n <> m -> ~ reachP s n -> ~ reachP s m ->
+  getp s n = Some y -> getp s m = Some z -> pt_name y <> pt_name z.
+
+Theorem relate_inv :
+  exists rs rid, get_or_add t (TInt q) (pt_rels x) = Ok (rs, rid) /\ rel_facts x rs rid t (TInt q) /\
+                 Inv T (setp s src (with_rels x rs)).
+Proof.
+  pose proof (iv_parts T s HI src x Hx) as G.
+  destruct (get_or_add_facts _ x t (TInt q) G) as (rs & rid & E & F). exists rs, rid. split; auto. split; auto.
+  destruct F as ([->|[-> Hf]] & _ & _).
+  - rewrite with_rels_same. apply (inv_setp T s src x x N); auto.
+  - apply (inv_setp T s src x _ N); auto.
+    + apply good_add_rel; auto. intros q' [= <-]. exact Hq.
+    + cbn [pt_rels with_rels]. rewrite type_filter_app. simpl.
+      destruct (str_eqb_spec t rt_slide_master); [contradiction|]. apply app_nil_r.
+    + cbn [pt_rels with_rels]. intros q'. rewrite int_targets_app. intros Hin.
+      apply in_app_or in Hin as [Hin|Hin]; auto. simpl in Hin. destruct Hin as [<-|[]]. tauto.
+Qed.
+End Relate.
+
+(** an external relationship: no edge of the graph changes *)
+Theorem relate_ext_inv T s src x t u : tables_ok T -> Inv T s -> getp s src = Some x -> src <> st_pres s ->
+  pt_ct x <> ct_slide_master -> t <> rt_slide_master ->
+  exists rs rid, get_or_add t (TExt u) (pt_rels x) = Ok (rs, rid) /\ rel_facts x rs rid t (TExt u) /\
+                 Inv T (setp s src (with_rels x rs)).
+Proof.
+  intros HT HI Hx Hnp Hnm Ht. pose proof (iv_parts T s HI src x Hx) as G.
+  destruct (get_or_add_facts _ x t (TExt u) G) as (rs & rid & E & F). exists rs, rid. split; auto. split; auto.
+  destruct F as ([->|[-> Hf]] & _ & _).
+  - rewrite with_rels_same. apply (inv_setp T s src x x []); auto; try (intros; contradiction).
+  - apply (inv_setp T s src x _ []); auto; try (intros; contradiction).
+    + apply good_add_rel; auto. intros q' [=].
+    + cbn [pt_rels with_rels]. rewrite type_filter_app. simpl.
+      destruct (str_eqb_spec t rt_slide_master); [contradiction|]. apply app_nil_r.
+    + cbn [pt_rels with_rels]. intros q'. rewrite int_targets_app. intros Hin.
+      apply in_app_or in Hin as [Hin|Hin]; auto; simpl in Hin; destruct Hin.
+Qed.
+
+(* ------------------------------------------------------------------------------ *)
+(** * Presentation.slides: the slide parts are renamed slide1..n *)
+
+Lemma set_names_nth parts : forall names q, length names = length parts ->
+  nth_error (set_names parts names) q =
+  match nth_error parts q, nth_error names q with
+  | Some x, Some n => Some (with_name x n)
+  | _, _ => None
+  end.
+Proof.
+  induction parts as [|a parts IH]; intros [|n names] q Hl; simpl in Hl; try discriminate.
+  - destruct q; reflexivity.
+  - destruct q; simpl; [reflexivity|]. apply IH. lia.
+Qed.
+
+Lemma set_names_length parts : forall names, length names = length parts -> length (set_names parts names) = length parts.
+Proof.
+  induction parts as [|a parts IH]; intros [|n names] Hl; simpl in *; try discriminate; auto.
+Qed.
+
+Lemma lookup_rel_idx rid rs q : related_part rid rs = Ok q -> Ids.lookup_rel rid (prels_idx rs) = Some q.
+Proof.
+  unfold related_part. induction rs as [|a rs IH]; simpl; [discriminate|].
+  destruct (str_eqb_spec (rr_id a) rid) as [E|E].
+  - destruct (rr_tgt a) eqn:Et; [|discriminate]. intros [= <-]. simpl. rewrite E, str_eqb_refl. reflexivity.
+  - intros H. destruct (rr_tgt a); simpl; [|auto].
+    destruct (str_eqb_spec rid (rr_id a)) as [E'|E']; [congruence|auto].
+Qed.
+
+Lemma resolvable_prefix_all rs rids tg :
+  Forall2 (fun rid q => related_part rid rs = Ok q) rids tg -> resolvable_prefix rs rids = (rids, None).
+Proof.
+  induction 1 as [|rid q rids tg Hr _ IH]; simpl; auto.
+  unfold related_part in Hr. destruct (find_rel rid rs) as [r|]; [|discriminate].
+  destruct (rr_tgt r); [|discriminate]. rewrite IH. reflexivity.
+Qed.
+
+Lemma ext_slide_name k : ext (Ids.slide_name k) = asc "xml".
+Proof.
+  unfold Ids.slide_name, Ids.tmpl_apply.
+  change Ids.s_slide_pre with (render ([asc "ppt"; asc "slides"] ++ [asc "slide"])).
+  rewrite render_snoc_app. change Ids.s_xml_post with (c_dot :: asc "xml"). rewrite app_assoc.
+  apply PackUri_proofs.ext_render.
+  - repeat constructor.
+  - rewrite <- app_assoc. apply wf_segb_stem; [reflexivity|]. rewrite forallb_app, dec_not_slash. reflexivity.
+  - reflexivity.
+  - reflexivity.
+Qed.
+
+(** with a well-behaved default table only bin can clash *)
+Lemma clash_only_bin T x y : tables_ok T ->
+  Opc.lower (ext (pt_name x)) = Opc.lower (ext (pt_name y)) ->
+  Opc.in_table (t_def T) (Opc.lower (ext (pt_name x))) (pt_ct x) = true ->
+  Opc.in_table (t_def T) (Opc.lower (ext (pt_name y))) (pt_ct y) = true ->
+  Opc.lower (ext (pt_name x)) <> s_bin -> pt_ct x = pt_ct y.
+Proof.
+  intros HT He Hx Hy Hb. destruct (Opc_proofs.str_eq_dec (pt_ct x) (pt_ct y)) as [|Hne]; auto.
+  exfalso. apply Hb. rewrite <- He in Hy. exact (tk_fun T HT _ _ _ Hx Hy Hne).
+Qed.
+
+Section Rename.
+Variable T : tables.
+Variable s : state.
+Hypothesis HT : tables_ok T.
+Hypothesis HI : Inv T s.
+Variables (pp : part) (tg : list nat) (names' : list str).
+Hypothesis Hpp : getp s (st_pres s) = Some pp.
+Hypothesis HF : Forall2 (fun rid q => related_part rid (pt_rels pp) = Ok q) (pt_idl pp) tg.
+Hypothesis Hnd : NoDup tg.
+Hypothesis Hdir : forall q, In q tg -> baseURI (name_of (st_parts s) q) = s_slides_dir.
+Hypothesis Hall : forall p x, reach_part s p x -> baseURI (pt_name x) = s_slides_dir -> In p tg.
+Hypothesis Hlen : length names' = length (st_parts s).
+Hypothesis Hlisted : forall j p, nth_error tg j = Some p -> nth_error names' p = Some (Ids.slide_name (N.of_nat j + 1)%N).
+Hypothesis Hother : forall q, ~ In q tg -> nth_error names' q = nth_error (map pt_name (st_parts s)) q.
+
+Let s' := with_slides (with_parts s (set_names (st_parts s) names')) true.
+Let Hw : wfg s := inv_wfg T s HI.
+
+Lemma rn_getp q : getp s' q =
+  match getp s q with
+  | Some x => Some (with_name x (match nth_error names' q with Some n => n | None => [] end))
+  | None => None
+  end.
+Proof.
+  unfold s', getp. cbn. rewrite set_names_nth by exact Hlen.
+  destruct (nth_error (st_parts s) q) eqn:E; [|reflexivity].
+  destruct (nth_error names' q) eqn:E2; [reflexivity|].
+  apply nth_error_None in E2. assert (q < length (st_parts s)) by (apply nth_error_Some; congruence). lia.
+Qed.
+
+Lemma rn_same q x : getp s q = Some x -> ~ In q tg -> getp s' q = Some x.
+Proof.
+  intros Hx Hq. rewrite rn_getp, Hx. rewrite (Hother q Hq). rewrite nth_error_map.
+  unfold getp in Hx. rewrite Hx. simpl. destruct x; reflexivity.
+Qed.
+
+Lemma rn_listed j q x : nth_error tg j = Some q -> getp s q = Some x ->
+  getp s' q = Some (with_name x (Ids.slide_name (N.of_nat j + 1)%N)).
+Proof. intros Hj Hx. rewrite rn_getp, Hx, (Hlisted j q Hj). reflexivity. Qed.
+
+Lemma rn_cases q x' : getp s' q = Some x' ->
+  exists x, getp s q = Some x /\ pt_rels x' = pt_rels x /\ pt_ct x' = pt_ct x /\ pt_base x' = pt_base x /\
+            pt_idl x' = pt_idl x /\ pt_refs x' = pt_refs x /\ pt_slots x' = pt_slots x /\
+            ((~ In q tg /\ x' = x) \/ (exists j, nth_error tg j = Some q /\ pt_name x' = Ids.slide_name (N.of_nat j + 1)%N)).
+Proof.
+  intros H. destruct (getp s q) as [x|] eqn:Hx; [|rewrite rn_getp, Hx in H; discriminate].
+  exists x. split; auto. destruct (in_dec Nat.eq_dec q tg) as [Hin|Hin].
+  - apply In_nth_error in Hin as (j & Hj). rewrite (rn_listed j q x Hj Hx) in H. injection H as <-.
+    repeat split; auto. right. exists j. auto.
+  - rewrite (rn_same q x Hx Hin) in H. injection H as <-. repeat split; auto.
+Qed.
+
+Lemma rn_reach q : reachP s' q <-> reachP s q.
+Proof.
+  split; intros H.
+  - induction H as [q Hq|a q z Ha IH Hz Hq]; [constructor; exact Hq|].
+    destruct (rn_cases a z Hz) as (x & Hx & Er & _). eapply rp1; eauto. rewrite <- Er. exact Hq.
+  - induction H as [q Hq|a q z Ha IH Hz Hq]; [constructor; exact Hq|].
+    destruct (getp s' a) as [z'|] eqn:Hz'; [|rewrite rn_getp, Hz in Hz'; discriminate].
+    destruct (rn_cases a z' Hz') as (x & Hx & Er & _). rewrite Hz in Hx. injection Hx as <-.
+    eapply rp1; eauto. rewrite Er. exact Hq.
+Qed.
+
+Lemma rn_len : length (st_parts s') = length (st_parts s).
+Proof. unfold s'. cbn. apply set_names_length. exact Hlen. Qed.
+
+Lemma rn_good q x' : getp s' q = Some x' -> good_part (length (st_parts s')) x'.
+Proof.
+  intros H. rewrite rn_len. destruct (rn_cases q x' H) as (x & Hx & Er & Ec & Eb & Ei & Ef & Es & Hc).
+  pose proof (iv_parts T s HI q x Hx) as G. destruct Hc as [[_ ->]|(j & Hj & En)]; auto.
+  destruct G as [H1 H2 H3 H4 H5 H6 H7 H8 H9 H10].
+  destruct (slide_name_facts (N.of_nat j + 1)%N) as [Pn Bn].
+  constructor; unfold all_refs, slot_rids; rewrite ?Er, ?Ec, ?Ei, ?Ef, ?Es, ?En; auto.
+  - rewrite Eb, H2, Bn. rewrite <- (name_of_getp s q x Hx). apply Hdir. eapply nth_error_In; eauto.
+Qed.
+
+Lemma rn_wfg : wfg s'.
+Proof.
+  split.
+  - rewrite rn_len. apply (iv_ptgts T s HI).
+  - intros a z q Hz Hq. exact (gp_tgts _ _ (rn_good a z Hz) q Hq).
+Qed.
+
+Lemma rn_name_neq a b xa xb : reachP s a -> reachP s b -> a <> b -> getp s' a = Some xa -> getp s' b = Some xb ->
+  pt_name xa <> pt_name xb.
+Proof.
+  intros Ra Rb Hab Ha Hb E.
+  destruct (rn_cases a xa Ha) as (ya & Hya & _ & _ & _ & _ & _ & _ & Ca).
+  destruct (rn_cases b xb Hb) as (yb & Hyb & _ & _ & _ & _ & _ & _ & Cb).
+  destruct (iter_pids_spec s Hw) as (Hiff & _).
+  assert (Hnl : forall c yc xc k, reachP s c -> getp s c = Some yc -> ~ In c tg -> xc = yc ->
+                 pt_name xc = Ids.slide_name k -> False).
+  { intros c yc xc k Rc Hyc Hnc -> En. apply Hnc. apply (Hall c yc); [split; [apply Hiff; auto|auto]|].
+    rewrite En. apply slide_name_facts. }
+  destruct Ca as [[Na ->]|(ja & Hja & Ena)], Cb as [[Nb ->]|(jb & Hjb & Enb)].
+  - apply Hab. apply (NoDup_map_inj_on (name_of (st_parts s)) (iter_pids s)); try (apply Hiff; auto).
+    + apply (iv_names T s HI).
+    + rewrite (name_of_getp s a ya Hya), (name_of_getp s b yb Hyb). exact E.
+  - eapply (Hnl a ya ya); eauto. rewrite E. exact Enb.
+  - eapply (Hnl b yb yb); eauto. rewrite <- E. exact Ena.
+  - rewrite Ena, Enb in E. apply Ids_proofs.slide_name_inj in E.
+    assert (ja = jb) by lia. subst jb. rewrite Hja in Hjb. congruence.
+Qed.
+
+Theorem inv_rename : Inv T s'.
+Proof.
+  destruct (iter_pids_spec s' rn_wfg) as (Hiff' & Hnd' & Hlt').
+  constructor.
+  - exact rn_good.
+  - rewrite rn_len. apply (iv_ptgts T s HI).
+  - apply (iv_pkeys T s HI).
+  - apply (iv_pnocache T s HI).
+  - unfold iter_names. apply NoDup_map_pairwise; auto. intros a b Ha Hb Hab.
+    apply Hiff' in Ha, Hb.
+    destruct (getp_some s' a (Hlt' a (proj2 (Hiff' a) Ha))) as (xa & Hxa).
+    destruct (getp_some s' b (Hlt' b (proj2 (Hiff' b) Hb))) as (xb & Hxb).
+    rewrite (name_of_getp s' a xa Hxa), (name_of_getp s' b xb Hxb).
+    apply (rn_name_neq a b xa xb); auto; apply rn_reach; auto.
+  - apply (iv_main T s HI).
+  - destruct (getp s' (st_pres s')) as [pp'|] eqn:E.
+    + exists pp'. split; auto. destruct (rn_cases _ pp' E) as (x & Hx & _ & Ec & _).
+      change (st_pres s') with (st_pres s) in Hx. rewrite Hpp in Hx. injection Hx as <-. rewrite Ec.
+      destruct (iv_pres T s HI) as (pp0 & Hpp0 & Hc). rewrite Hpp in Hpp0. injection Hpp0 as <-. exact Hc.
+    + change (st_pres s') with (st_pres s) in E. rewrite rn_getp, Hpp in E. discriminate.
+  - intros a b xa xb [Ha Hxa] [Hb Hxb] He Hia Hib.
+    destruct (rn_cases a xa Hxa) as (ya & Hya & _ & Eca & _ & _ & _ & _ & Ca).
+    destruct (rn_cases b xb Hxb) as (yb & Hyb & _ & Ecb & _ & _ & _ & _ & Cb).
+    assert (Hxml : forall z k, pt_name z = Ids.slide_name k -> Opc.lower (ext (pt_name z)) <> s_bin).
+    { intros z k En. rewrite En, ext_slide_name. vm_compute. discriminate. }
+    destruct Ca as [[Na ->]|(ja & Hja & Ena)].
+    + destruct Cb as [[Nb ->]|(jb & Hjb & Enb)].
+      * apply (iv_clash T s HI a b ya yb); auto; split; auto;
+          apply (iter_pids_spec s Hw); apply rn_reach; apply Hiff'; auto.
+      * apply (clash_only_bin T ya xb HT He Hia Hib). rewrite He. eapply Hxml; eauto.
+    + apply (clash_only_bin T xa xb HT He Hia Hib). eapply Hxml; eauto.
+  - destruct (getp s' (st_pres s')) as [pp'|] eqn:E.
+    2:{ change (st_pres s') with (st_pres s) in E. rewrite rn_getp, Hpp in E. discriminate. }
+    destruct (rn_cases _ pp' E) as (x & Hx & Er & _ & _ & Ei & _).
+    change (st_pres s') with (st_pres s) in Hx. rewrite Hpp in Hx. injection Hx as <-.
+    exists pp', tg. split; auto. rewrite Er, Ei. split; auto. split; auto.
+    assert (Htgn : forall j q, nth_error tg j = Some q -> name_of (st_parts s') q = Ids.slide_name (N.of_nat j + 1)%N).
+    { intros j q Hj. assert (Hq : q < length (st_parts s)).
+      { assert (Hin : In q tg) by (eapply nth_error_In; eauto).
+        clear - HF Hin Hpp HI. induction HF; [destruct Hin|]. destruct Hin as [<-|Hin]; auto.
+        apply related_part_target in H. exact (gp_tgts _ _ (iv_parts T s HI _ pp Hpp) _ H). }
+      destruct (getp_some s q Hq) as (x & Hx). rewrite (name_of_getp s' q _ (rn_listed j q x Hj Hx)). reflexivity. }
+    split; [|split].
+    + intros q Hq. apply In_nth_error in Hq as (j & Hj). rewrite (Htgn j q Hj). apply slide_name_facts.
+    + intros a xa [Ha Hxa] Hd. destruct (rn_cases a xa Hxa) as (ya & Hya & _ & _ & _ & _ & _ & _ & Ca).
+      destruct Ca as [[Na ->]|(ja & Hja & _)]; [|eapply nth_error_In; eauto].
+      apply (Hall a ya); auto. split; auto. apply (iter_pids_spec s Hw). apply rn_reach. apply Hiff'. exact Ha.
+    + intros _ j q Hj. apply Htgn. exact Hj.
+  - intros m mx rid lp lx m' Hm Hct Hrid Hlp Hlx Hm'.
+    destruct (rn_cases m mx Hm) as (ym & Hym & Erm & Ecm & _ & Eim & _).
+    destruct (rn_cases lp lx Hlx) as (yl & Hyl & Erl & _).
+    rewrite Erm in Hlp. rewrite Ecm in Hct. rewrite Eim in Hrid. rewrite Erl in Hm'.
+    eapply (iv_master T s HI); eauto.
+  - destruct (iv_fixed T s HI) as (F1 & F2 & F3).
+    assert (Hin : forall nm, (forall k, nm <> Ids.slide_name k) -> In nm (iter_names s') -> In nm (iter_names s)).
+    { intros nm Hk H. apply (in_iter_names s' rn_wfg) in H as (a & xa & [Ha Hxa] & En).
+      destruct (rn_cases a xa Hxa) as (ya & Hya & _ & _ & _ & _ & _ & _ & Ca).
+      destruct Ca as [[Na ->]|(ja & Hja & Ena)]; [|exfalso; eapply Hk; rewrite <- En; eauto].
+      apply (in_iter_names s Hw). exists a, ya. split; auto. split; auto.
+      apply (iter_pids_spec s Hw). apply rn_reach. apply Hiff'. exact Ha. }
+    assert (Hk1 : forall k, n_notes_master <> Ids.slide_name k).
+    { intros k E. pose proof (proj2 (slide_name_facts k)) as B. rewrite <- E in B. vm_compute in B. discriminate. }
+    assert (Hk2 : forall k, n_core <> Ids.slide_name k).
+    { intros k E. pose proof (proj2 (slide_name_facts k)) as B. rewrite <- E in B. vm_compute in B. discriminate. }
+    assert (Hpr : forall pp', getp s' (st_pres s') = Some pp' -> pt_rels pp' = pt_rels pp).
+    { intros pp' E. destruct (rn_cases _ pp' E) as (x & Hx & Er & _).
+      change (st_pres s') with (st_pres s) in Hx. rewrite Hpp in Hx. injection Hx as <-. exact Er. }
+    split; [|split].
+    + intros pp' E H. rewrite (Hpr pp' E). apply (F1 pp Hpp). apply Hin; auto.
+    + intros H. apply F2. apply Hin; auto.
+    + intros pp' q E Hq. rewrite (Hpr pp' E). apply (F3 pp q Hpp). exact Hq.
+Qed.
+End Rename.
+
+Lemma Forall2_impl {A B} (P Q : A -> B -> Prop) l l' : (forall a b, P a b -> Q a b) -> Forall2 P l l' -> Forall2 Q l l'.
+Proof. intros H. induction 1; constructor; auto. Qed.
+
+Theorem access_inv T s : tables_ok T -> Inv T s ->
+  exists s1, m_access_slides s = (s1, Ok tt) /\ Inv T s1 /\ st_slides s1 = true /\ st_pres s1 = st_pres s.
+Proof.
+  intros HT HI. unfold m_access_slides. destruct (st_slides s) eqn:Es.
+  - exists s. auto.
+  - destruct (iv_slides T s HI) as (pp & tg & Hpp & HF & Hnd & Hdir & Hall & _). rewrite Hpp.
+    rewrite (resolvable_prefix_all _ _ _ HF).
+    assert (Hres : Ids_proofs.resolves (prels_idx (pt_rels pp)) (pt_idl pp) tg).
+    { unfold Ids_proofs.resolves. eapply Forall2_impl; [|exact HF]. intros a b. apply lookup_rel_idx. }
+    assert (Hrange : forall p, In p tg -> p < length (map pt_name (st_parts s))).
+    { rewrite map_length. intros q Hin. clear - HF Hin Hpp HI. induction HF; [destruct Hin|]. destruct Hin as [<-|Hin]; auto.
+      apply related_part_target in H. exact (gp_tgts _ _ (iv_parts T s HI _ pp Hpp) _ H). }
+    destruct (Ids_proofs.rename_listed _ _ _ (map pt_name (st_parts s)) Hres Hnd Hrange) as (names' & E & Hl & H3 & H4 & _).
+    rewrite E. eexists. split; [reflexivity|]. split; [|split; reflexivity].
+    rewrite map_length in Hl.
+    apply (inv_rename T s HT HI pp tg names'); auto.
+Qed.
+
+(** prs.slides at i: a slide part the presentation part reaches *)
+Definition slidep (s : state) (sp : nat) : Prop :=
+  st_slides s = true /\ reachP s sp /\ sp <> st_pres s /\ exists x, getp s sp = Some x /\ pt_ct x = ct_slide.
+
+Lemma pres_reach T s : Inv T s -> reachP s (st_pres s).
+Proof.
+  intros HI. destruct (iv_main T s HI) as (r & Hf & Ht). constructor. apply int_targets_In. exists r. split; auto.
+  assert (In r [r]) by (simpl; auto). rewrite <- Hf in H. apply filter_In in H. tauto.
+Qed.
+
+Lemma m_class_run s p ct x : getp s p = Some x ->
+  m_class p ct s = (s, if str_eqb (pt_ct x) ct then Ok tt else Err OtherErr).
+Proof. intros H. unfold m_class, bindM. rewrite (m_part_run s p x H). destruct (str_eqb (pt_ct x) ct); reflexivity. Qed.
+
+Theorem slide_inv T s i : tables_ok T -> Inv T s ->
+  exists s1, Inv T s1 /\ st_pres s1 = st_pres s /\
+    ((exists e, m_slide i s = (s1, Err e)) \/ (exists sp, m_slide i s = (s1, Ok sp) /\ slidep s1 sp)).
+Proof.
+  intros HT HI. destruct (access_inv T s HT HI) as (s1 & E & HI1 & Hs1 & Hp1).
+  exists s1. split; auto. split; auto. unfold m_slide, bindM. rewrite E. unfold getS.
+  destruct (iv_pres T s1 HI1) as (pp & Hpp & Hc). rewrite (m_part_run s1 _ pp Hpp).
+  destruct (nth_error (pt_idl pp) i) as [rid|] eqn:En; [|left; eexists; reflexivity].
+  unfold lift. destruct (related_part rid (pt_rels pp)) as [sp|e] eqn:Er; [|left; eexists; reflexivity].
+  assert (Hsp : sp < length (st_parts s1)).
+  { apply related_part_target in Er. exact (gp_tgts _ _ (iv_parts T s1 HI1 _ pp Hpp) _ Er). }
+  destruct (getp_some s1 sp Hsp) as (x & Hx). rewrite (m_class_run s1 sp ct_slide x Hx).
+  destruct (str_eqb_spec (pt_ct x) ct_slide) as [Ec|Ec]; [|left; eexists; reflexivity].
+  right. exists sp. split; [reflexivity|]. split; auto. split; [|split].
+  - eapply rp1; [apply (pres_reach T s1 HI1)|exact Hpp|]. apply related_part_target in Er. exact Er.
+  - intros ->. rewrite Hpp in Hx. injection Hx as <-. apply Hc. rewrite Ec. simpl. auto.
+  - eauto.
+Qed.
+
+(* ------------------------------------------------------------------------------ *)
+(** * Running the monadic code under the invariant *)
+
+Definition MH {A} (T : tables) (m : M A) (s : state) (Q : A -> state -> Prop) : Prop :=
+  Inv T (fst (m s)) /\ forall a, snd (m s) = Ok a -> Q a (fst (m s)).
+
+Lemma MH_bind {A B} T (m : M A) (f : A -> M B) s Q R :
+  MH T m s Q -> (forall a s1, Inv T s1 -> Q a s1 -> MH T (f a) s1 R) -> MH T (bindM m f) s R.
+Proof.
+  intros [H1 H2] Hf. unfold MH, bindM. destruct (m s) as [s1 [a|e]]; cbn [fst snd] in *.
+  - apply Hf; auto.
+  - split; auto. discriminate.
+Qed.
+
+Lemma MH_weaken {A} T (m : M A) s (Q R : A -> state -> Prop) :
+  MH T m s Q -> (forall a s1, Q a s1 -> R a s1) -> MH T m s R.
+Proof. intros [H1 H2] H. split; auto. Qed.
+
+Lemma MH_ret {A} T (a : A) s (Q : A -> state -> Prop) : Inv T s -> Q a s -> MH T (ret a) s Q.
+Proof. intros H1 H2. split; cbn; auto. intros b [= <-]. auto. Qed.
+
+Lemma MH_fail {A} T e s (Q : A -> state -> Prop) : Inv T s -> MH T (fail e) s Q.
+Proof. intros H1. split; cbn; auto. discriminate. Qed.
+
+Lemma MH_lift {A} T (r : res A) s (Q : A -> state -> Prop) : Inv T s -> (forall a, r = Ok a -> Q a s) -> MH T (lift r) s Q.
+Proof. intros H1 H2. split; cbn; auto. Qed.
+
+Lemma MH_getS T s (Q : state -> state -> Prop) : Inv T s -> Q s s -> MH T getS s Q.
+Proof. intros H1 H2. split; cbn; auto. intros b [= <-]. auto. Qed.
+
+Lemma MH_part T s p x (Q : part -> state -> Prop) : Inv T s -> getp s p = Some x -> Q x s -> MH T (m_part p) s Q.
+Proof. intros H1 Hx H2. unfold MH. rewrite (m_part_run s p x Hx). cbn. split; auto. intros b [= <-]. auto. Qed.
+
+Lemma MH_part_any T s p (Q : part -> state -> Prop) : Inv T s -> (forall x, getp s p = Some x -> Q x s) -> MH T (m_part p) s Q.
+Proof.
+  intros H1 H2. destruct (getp s p) as [x|] eqn:E; [apply (MH_part T s p x); auto|].
+  unfold MH, m_part, bindM, getS. rewrite E. cbn. split; auto. discriminate.
+Qed.
+
+Lemma MH_setp T s p x (Q : unit -> state -> Prop) : Inv T (setp s p x) -> Q tt (setp s p x) -> MH T (m_setp p x) s Q.
+Proof. intros H1 H2. split; cbn; auto. intros [] _. auto. Qed.
+
+Lemma MH_class T s p ct (Q : unit -> state -> Prop) : Inv T s ->
+  (forall x, getp s p = Some x -> pt_ct x = ct -> Q tt s) -> MH T (m_class p ct) s Q.
+Proof.
+  intros H1 H2. unfold m_class. apply (MH_bind T _ _ s (fun x s1 => s1 = s /\ getp s p = Some x)).
+  - apply MH_part_any; auto.
+  - intros x s1 _ [-> Hx]. destruct (str_eqb_spec (pt_ct x) ct) as [E|E]; [apply MH_ret; eauto|apply MH_fail; auto].
+Qed.
+
+Lemma MH_slide T s i : tables_ok T -> Inv T s ->
+  MH T (m_slide i) s (fun sp s1 => slidep s1 sp /\ st_pres s1 = st_pres s).
+Proof.
+  intros HT HI. destruct (slide_inv T s i HT HI) as (s1 & HI1 & Hp & [(e & E)|(sp & E & Hs)]); unfold MH; rewrite E; cbn.
+  - split; auto. discriminate.
+  - split; auto. intros a [= <-]. auto.
+Qed.
+
+Lemma MH_access T s : tables_ok T -> Inv T s ->
+  MH T m_access_slides s (fun _ s1 => st_slides s1 = true /\ st_pres s1 = st_pres s).
+Proof.
+  intros HT HI. destruct (access_inv T s HT HI) as (s1 & E & HI1 & Hs & Hp). unfold MH. rewrite E. cbn. split; auto.
+Qed.
+
+Lemma fst_fin {A} (f : A -> outcome) (m : M A) s : fst (fin f m s) = fst (m s).
+Proof. unfold fin. destruct (m s). reflexivity. Qed.
+
+Lemma ct_slide_ne_master : ct_slide <> ct_slide_master. Proof. vm_compute. discriminate. Qed.
+Lemma ct_notes_ne_master : ct_notes_slide <> ct_slide_master. Proof. vm_compute. discriminate. Qed.
+Lemma ct_chart_ne_master : ct_chart <> ct_slide_master. Proof. vm_compute. discriminate. Qed.
+
+(** a part the link operations and the shape additions edit: a slide or a notes slide *)
+Definition editable (s : state) (p : nat) (x : part) : Prop :=
+  getp s p = Some x /\ p <> st_pres s /\ (pt_ct x = ct_slide \/ pt_ct x = ct_notes_slide).
+
+Lemma editable_not_master s p x : editable s p x -> pt_ct x <> ct_slide_master.
+Proof. intros (_ & _ & [E|E]); rewrite E; [apply ct_slide_ne_master|apply ct_notes_ne_master]. Qed.
+
+Lemma slidep_editable s sp : slidep s sp -> exists x, editable s sp x /\ pt_ct x = ct_slide /\ reachP s sp.
+Proof. intros (_ & Hr & Hn & x & Hx & Ec). exists x. split; [split; auto|auto]. Qed.
+
+(** ** the operations that only touch flags, slots or nothing *)
+
+Lemma step_access T s : tables_ok T -> Inv T s -> Inv T (fst (step false T s AccessSlides)).
+Proof. intros HT HI. cbn [step]. rewrite fst_fin. apply (MH_access T s HT HI). Qed.
+
+Lemma step_save T s : Inv T s -> Inv T (fst (step false T s Save)).
+Proof. intros HI. exact HI. Qed.
+
+Lemma step_picture_bad T s i : tables_ok T -> Inv T s -> Inv T (fst (step false T s (AddPictureBad i))).
+Proof.
+  intros HT HI. cbn [step]. rewrite fst_fin. unfold m_add_picture_bad.
+  apply (MH_bind T _ _ s _ (fun _ _ => True) (MH_slide T s i HT HI)). intros sp s1 HI1 _. apply MH_fail. auto.
+Qed.
+
+Lemma step_plain T s i : tables_ok T -> Inv T s -> Inv T (fst (step false T s (AddPlainShape i))).
+Proof.
+  intros HT HI. cbn [step]. rewrite fst_fin.
+  apply (MH_bind T _ _ s _ (fun _ _ => True) (MH_slide T s i HT HI)). intros sp s1 HI1 [Hs _].
+  destruct (slidep_editable s1 sp Hs) as (x & He & Ec & Hr). destruct He as (Hx & Hnp & Hcls).
+  apply (MH_bind T _ _ s1 (fun y s2 => y = x /\ s2 = s1)); [apply (MH_part T s1 sp x); auto|].
+  intros y s2 _ [-> ->]. apply MH_setp; auto.
+  apply (inv_setp T s1 sp x _ []); auto; try (intros; contradiction);
+    try (rewrite Ec; apply ct_slide_ne_master).
+  apply good_add_slot; [apply (iv_parts T s1 HI1 sp x Hx)|rewrite Ec; apply ct_slide_ne_master].
+Qed.
